@@ -2,6 +2,7 @@ package eng
 
 import (
 	"fmt"
+	"os"
 	"go/ast"
 	"go/parser"
 	"go/token"
@@ -42,7 +43,7 @@ type specEnv struct {
 	inOld  bool
 	info   *types.Info
 	pos    token.Pos
-	locals func(obj types.Object) (*Cell, bool)
+	locals func(obj types.Object) (PtrV, bool)
 	labels map[string]*State
 	loop   *loopInfo
 }
@@ -223,13 +224,21 @@ func (x *exec) ownEnv(s *State) *specEnv {
 			env.oldv[p.Object()] = x.args[i]
 		}
 	}
-	env.locals = func(obj types.Object) (*Cell, bool) {
+	env.locals = func(obj types.Object) (PtrV, bool) {
 		for a, c := range x.cellOf {
 			if a.Pos() == obj.Pos() && a.Pos().IsValid() {
-				return c, true
+				return PtrV{Kind: PCell, Cell: c, T: c.T}, true
 			}
 		}
-		return nil, false
+		// locals that live in the heap (address taken / arrays)
+		for v, val := range x.regs {
+			if a, ok := v.(*ssa.Alloc); ok && a.Pos() == obj.Pos() && a.Pos().IsValid() {
+				if p, ok := val.(PtrV); ok {
+					return p, true
+				}
+			}
+		}
+		return PtrV{}, false
 	}
 	for k, v := range x.ghostEnv {
 		env.vars[k] = v
@@ -371,7 +380,7 @@ func (env *specEnv) eval(ex ast.Expr) Value {
 			return e.pathGet(b, bt, []Sel{{Index: idx}})
 		case *Term:
 			if b.Sort == Str {
-				return c.App("str.at", BV8, b, idx)
+				return c.App("s.at", BV8, b, idx)
 			}
 			if repOf(bt) == RMap {
 				return env.mapGet(b, env.eval(n.Index), bt, false)
@@ -419,6 +428,88 @@ func (env *specEnv) eval(ex ast.Expr) Value {
 		return PoisonV{"type assertion in spec (use typeis_/as_)"}
 	}
 	return PoisonV{fmt.Sprintf("spec expression %T", ex)}
+}
+
+// autoPatterns proposes E-matching patterns for a specification quantifier:
+// every minimal select/application subterm that mentions all bound variables
+// becomes an alternative single-term pattern.
+func autoPatterns(body *Term, bound []*Term) [][]*Term {
+	if os.Getenv("GOVC_PAT") == "" {
+		return nil
+	}
+	need := map[*Term]bool{}
+	for _, b := range bound {
+		need[b] = true
+	}
+	var cands []*Term
+	seen := map[*Term]bool{}
+	var mentions func(t *Term) map[*Term]bool
+	memo := map[*Term]map[*Term]bool{}
+	mentions = func(t *Term) map[*Term]bool {
+		if m, ok := memo[t]; ok {
+			return m
+		}
+		m := map[*Term]bool{}
+		if need[t] {
+			m[t] = true
+		}
+		if t.Op != "forall" && t.Op != "exists" {
+			for _, a := range t.Args {
+				for k := range mentions(a) {
+					m[k] = true
+				}
+			}
+		}
+		memo[t] = m
+		return m
+	}
+	var walk func(t *Term)
+	walk = func(t *Term) {
+		if seen[t] || t.Op == "forall" || t.Op == "exists" {
+			return
+		}
+		seen[t] = true
+		if len(mentions(t)) == 0 {
+			return
+		}
+		if (t.Op == "select" || t.Op == "app") && len(mentions(t)) == len(need) {
+			// prefer the smallest: if some argument already qualifies, descend
+			sub := false
+			for _, a := range t.Args {
+				if len(mentions(a)) == len(need) && hasApp(a) {
+					sub = true
+				}
+			}
+			if !sub {
+				cands = append(cands, t)
+				return
+			}
+		}
+		for _, a := range t.Args {
+			walk(a)
+		}
+	}
+	walk(body)
+	if len(cands) == 0 || len(cands) > 6 {
+		return nil
+	}
+	var out [][]*Term
+	for _, cnd := range cands {
+		out = append(out, []*Term{cnd})
+	}
+	return out
+}
+
+func hasApp(t *Term) bool {
+	if t.Op == "select" || t.Op == "app" {
+		return true
+	}
+	for _, a := range t.Args {
+		if hasApp(a) {
+			return true
+		}
+	}
+	return false
 }
 
 func poisonOf(what string, vs ...Value) Value {
@@ -483,7 +574,7 @@ func (env *specEnv) evalIdent(id *ast.Ident) Value {
 			}
 		}
 		if env.locals != nil {
-			if cell, ok := env.locals(o); ok {
+			if lp, ok := env.locals(o); ok {
 				st := env.state()
 				if env.inOld {
 					// a local has no entry value other than parameters
@@ -491,6 +582,10 @@ func (env *specEnv) evalIdent(id *ast.Ident) Value {
 						return v
 					}
 				}
+				if lp.Kind != PCell {
+					return e.load(st, lp)
+				}
+				cell := lp.Cell
 				if v, ok := st.cells[cell]; ok {
 					return v
 				}
@@ -579,8 +674,8 @@ func (env *specEnv) addr(ex ast.Expr) (PtrV, error) {
 		obj := env.info.Uses[n]
 		if v, ok := obj.(*types.Var); ok {
 			if env.locals != nil {
-				if cell, ok := env.locals(v); ok {
-					return PtrV{Kind: PCell, Cell: cell, T: cell.T}, nil
+				if lp, ok := env.locals(v); ok {
+					return lp, nil
 				}
 			}
 			if v.Pkg() != nil && v.Parent() == v.Pkg().Scope() {
@@ -791,7 +886,7 @@ func (env *specEnv) evalCall(n *ast.CallExpr) Value {
 			return PoisonV{"quantifier body is not boolean"}
 		}
 		if name == "forall_" {
-			return c.Quant("forall", bound, c.Implies(c.And(guards...), body), nil)
+			return c.Quant("forall", bound, c.Implies(c.And(guards...), body), autoPatterns(body, bound))
 		}
 		return c.Quant("exists", bound, c.And(c.And(guards...), body), nil)
 	case "fresh_":
@@ -1235,6 +1330,12 @@ func (x *exec) applyContract(s *State, blk *Block, fn *ssa.Function, args []Valu
 		return x.defaultCall(s, key, args, sig, pos)
 	}
 	old := s.clone()
+	// the callee may allocate: values it stores may be references newer than ours
+	{
+		nn := c.Fresh("next", Int)
+		nn.AddFact(c.Le(s.next, nn))
+		s.next = nn
+	}
 	// frame: havoc what modifies lists
 	for _, cl := range blk.Of("modifies") {
 		x.havocModifies(s, old, cl, blk, fn, cs, args)
@@ -1269,12 +1370,6 @@ func (x *exec) applyContract(s *State, blk *Block, fn *ssa.Function, args []Valu
 		s.alloc = na
 		x.noteAlloc(s, pos, "call:"+calleeShort(key))
 		s.alloc = old.alloc
-	}
-	if len(blk.Of("fresh")) > 0 || true {
-		// results may be freshly allocated references
-		nn := c.Fresh("next", Int)
-		nn.AddFact(c.Le(s.next, nn))
-		s.next = nn
 	}
 	var vals []Value
 	for i := 0; i < sig.Results().Len(); i++ {
@@ -1315,6 +1410,7 @@ func (x *exec) havocModifies(s, old *State, cl *Clause, blk *Block, fn *ssa.Func
 			continue
 		}
 		if item == "*" {
+			e.noteWrite(s, "*", wtarget{kind: wAll})
 			for key, so := range e.heapSorts {
 				s.heap[key] = c.Fresh("mod.H:"+key, so)
 			}
@@ -1325,6 +1421,7 @@ func (x *exec) havocModifies(s, old *State, cl *Clause, blk *Block, fn *ssa.Func
 			key := strings.TrimPrefix(item, "heap:")
 			for k, so := range e.heapSorts {
 				if k == key || strings.HasPrefix(k, key+"#") {
+					e.noteWrite(s, k, wtarget{kind: wAll})
 					s.heap[k] = c.Fresh("mod.H:"+k, so)
 				}
 			}
@@ -1371,6 +1468,7 @@ func (x *exec) havocLvalue(s, old *State, env *specEnv, ex ast.Expr, wild bool, 
 					}
 					hk := "ghost:" + fo.Name()
 					h := e.heapGet(s, hk, Array(Int, ls[0].sort))
+					e.noteWrite(s, hk, wtarget{kind: wRef, ref: ts[0]})
 					e.heapSet(s, hk, c.Store(h, ts[0], c.Fresh("mod."+fo.Name(), ls[0].sort)))
 					return
 				}
@@ -1407,6 +1505,7 @@ func (x *exec) havocLvalue(s, old *State, env *specEnv, ex ast.Expr, wild bool, 
 		for _, l := range e.leavesOf(el) {
 			key := elemKey(el) + l.comp
 			h := e.heapGet(s, key, Array(Int, Array(Int, l.sort)))
+			e.noteWrite(s, key, wtarget{kind: wRow, arr: base.Arr, lo: base.Off, n: base.Len})
 			row := c.Select(h, base.Arr)
 			nr := c.Fresh("mod.row", Array(Int, l.sort))
 			k := c.BoundVar("k", Int)
@@ -1417,33 +1516,23 @@ func (x *exec) havocLvalue(s, old *State, env *specEnv, ex ast.Expr, wild bool, 
 		}
 		return
 	}
-	// struct elements: havoc listed field (or all fields) at elem(arr, k) for k in range
-	e.ensureElemAxioms()
-	var havocField func(t types.Type, fi int)
-	havocField = func(t types.Type, fi int) {
-		ft := structOf(t).Field(fi).Type()
-		ls := e.leavesOf(ft)
-		if ls == nil {
-			return
+	// struct elements: havoc the listed field (or all fields) of elements in range
+	for _, lp := range e.structLeaves(el) {
+		if len(fields) > 0 {
+			fname := structOf(el).Field(fields[0]).Name()
+			pre := "E:" + typeKey(el) + "." + fname
+			if lp.key != pre && !strings.HasPrefix(lp.key, pre+"#") && !strings.HasPrefix(lp.key, pre+".") {
+				continue
+			}
 		}
-		for _, l := range ls {
-			key := fieldKey(t, fi) + l.comp
-			h := e.heapGet(s, key, Array(Int, l.sort))
-			nh := c.Fresh("mod.H:"+key, Array(Int, l.sort))
-			r := c.BoundVar("r", Int)
-			idx := c.App("elemIdx", Int, r)
-			isEl := c.And(c.Eq(c.App("elemArr", Int, r), base.Arr), c.Eq(c.App("elem", Int, base.Arr, idx), r), c.Le(base.Off, idx), c.Lt(idx, c.Add(base.Off, base.Len)))
-			sel := c.Select(nh, r)
-			nh.AddFact(c.Quant("forall", []*Term{r}, c.Implies(c.Not(isEl), c.Eq(sel, c.Select(h, r))), [][]*Term{{sel}}))
-			e.heapSet(s, key, nh)
-		}
+		h := e.heapGet(s, lp.key, Array(Int, Array(Int, lp.sort)))
+		e.noteWrite(s, lp.key, wtarget{kind: wRow, arr: base.Arr, lo: base.Off, n: base.Len})
+		row := c.Select(h, base.Arr)
+		nr := c.Fresh("mod.row", Array(Int, lp.sort))
+		k := c.BoundVar("k", Int)
+		in := c.And(c.Le(base.Off, k), c.Lt(k, c.Add(base.Off, base.Len)))
+		sel := c.Select(nr, k)
+		nr.AddFact(c.Quant("forall", []*Term{k}, c.Implies(c.Not(in), c.Eq(sel, c.Select(row, k))), [][]*Term{{sel}}))
+		e.heapSet(s, lp.key, c.Store(h, base.Arr, nr))
 	}
-	if len(fields) == 0 {
-		st := structOf(el)
-		for i := 0; i < st.NumFields(); i++ {
-			havocField(el, i)
-		}
-		return
-	}
-	havocField(el, fields[0])
 }
